@@ -20,14 +20,14 @@ LEVEL_TEXT = ('Proof (partial): 42 Lean theorems, no sorry, about the executable
               'round trip; PARAM/MULTI flavour choice; dispatch and record tables of /repo as modelled (decided on the generated tables). '
                             'read_write_whole_partial: read(write d) = canon d for whole objects, by induction over the object\'s section list through the '
               'keyword loop (title line, each section\'s round trip with a continuation that begins with a keyword line, PARAM\'s look-ahead '
-              'handed back to the loop, ENDCY/ENDFI), for TOUGH2-flavour objects with the mesh in the file, no extra-precision companion and '
-              'sections among ROCKS PARAM MOMOP START NOVER ELEME CONNE GENER LINEQ SOLVR RPCAP TIMES SELEC INCON INDOM MULTI DIFFU FOFT GOFT COFT MESHM SHORT, i.e. every kind but SIMUL (MESHM through its MESHMAKER keyword line, SHORT through its header line raw or padded, names resolved against the grid read before it; COFT only before the grid is read; side conditions of the section theorems stated on the '
+              'handed back to the loop, ENDCY/ENDFI), for objects of both flavours (TOUGH2; AUTOUGH2 = SIMUL section, param1_autough2/multi_autough2 records, written without extra-precision arguments) with the mesh in the file, no extra-precision companion and '
+              'sections among ROCKS PARAM MOMOP START NOVER ELEME CONNE GENER LINEQ SOLVR RPCAP TIMES SELEC INCON INDOM MULTI DIFFU FOFT GOFT COFT MESHM SHORT SIMUL, i.e. all 23 kinds (SIMUL: the simulator string comes back stripped, side condition that it is not blank; MESHM through its MESHMAKER keyword line, SHORT through its header line raw or padded, names resolved against the grid read before it; COFT only before the grid is read; side conditions of the section theorems stated on the '
               'reader\'s object when the section is met); whole_sections_preserved: the object read has the written object\'s _sections in '
               'the same order and its end keyword; whole_fields: its title, rock types, blocks, connections, generators, MOP/MOMOP options and '
               'default initial conditions are the canonical values of the written object\'s; write_read_write_whole_partial: write(read(write d)) = write(canon d) for the same objects; '
               'read_write_whole_meshfile_partial: the same round trip with the mesh in an ASCII MESH file (keyword loop on the main file, then read_meshfile). '
-              'NOT proved (modelled; covered by the byte-for-byte correspondence and the oracle only): the whole-object composition for the other '
-              'section kind SIMUL (AUTOUGH2 flavour), for the extra-precision companion file; the binary MESHA/MESHB pair; idempotence of field rounding on '
+              'NOT proved (modelled; covered by the byte-for-byte correspondence and the oracle only): the whole-object composition '
+              'for the extra-precision companion file (AUTOUGH2 objects written with extra_precision set); the binary MESHA/MESHB pair; idempotence of field rounding on '
               'reals (hence of canon on whole objects).')
 LEVEL_NOTE = ('Trusted: Lean kernel (+propext, Classical.choice, Quot.sound); the hand-written model (tied to /repo on every run: written '
               'files byte for byte, read-back objects attribute by attribute, incl. the six shipped files); C02 record theorems; '
